@@ -8,6 +8,8 @@
 //              cholDec(tol) given the tolerance scaled with the normal matrix
 //   sp.dim0    the same pipeline on matrices without rows or columns (each case may abort)
 //   sp.svector SparseVector growth, IntegerList
+//   env.assign Envelope::operator= between all ordered pairs of envelope profiles (all n! profiles of every dimension 0..5, thorough 0..6)
+//              x 3 states of the target x 3 states of the source; self assignment
 //   bd         all block layouts (compositions of n<=5) x all band widths x 2 value families x which blocks are not
 //              positive definite: BlockDiagonal::cholDec, replicate, UpperBlockDiagonal, Envelope(BlockDiagonal); positive definite
 //              layouts also at four scales of the matrix: Envelope cholDec(tol scaled) / solve / inverse vs the dense results
@@ -430,6 +432,69 @@ static void bd_case(long long idx) {
   }
 }
 
+// ------------------------------------------------------------------ Envelope assignment between all pairs of profiles
+// A profile of dimension n gives every row a = 1..n a width 0..a-1: n! profiles, all of them for n = 0..ENVA_NMAX (n = 0: the empty object).
+// Case = ordered pair (target profile, source profile) x state of the target x state of the source (0 position coded values,
+// 1 factored positive definite matrix, 2 factored matrix with a zero first pivot: defect > 0): after `target = source` the target equals
+// the source element by element (dim, row widths, diagonal, envelope, defect), shares no storage with it and keeps its values when the
+// source is overwritten; a pair of identical profiles additionally runs the self assignment `target = target`.
+static int ENVA_NMAX = 5;     // unit env.assign: 5 (both tiers), unit env.assign6: 6 (thorough); separate units so that a case index means the same in both tiers
+static const std::vector<std::vector<int>>& enva_profiles() {
+  static std::vector<std::vector<int>> PP[2];
+  std::vector<std::vector<int>>& P = PP[ENVA_NMAX == 6];
+  if (P.empty()) for (int n = 0; n <= ENVA_NMAX; n++) { long long tot = 1; for (int a = 1; a <= n; a++) tot *= a; for (long long k = 0; k < tot; k++) { std::vector<int> w(n); long long q = k; for (int a = 1; a <= n; a++) { w[a - 1] = (int)(q % a); q /= a; } P.push_back(w); } }
+  return P;
+}
+struct EnvSnap { int dim = 0, defect = 0; std::vector<int> len; std::vector<double> diag, env;
+  bool operator==(const EnvSnap& o) const { return dim == o.dim && defect == o.defect && len == o.len && diag == o.diag && env == o.env; } };
+static EnvSnap enva_snap(const Env& e) { EnvSnap s; s.dim = (int)e.dim(); s.defect = (int)e.defect(); const Env& c = e; for (int a = 1; a <= s.dim; a++) { s.diag.push_back(c.diagonal(a)); double* b = const_cast<Env&>(e).begin(a); double* en = const_cast<Env&>(e).end(a); s.len.push_back((int)(en - b)); for (; b != en; ++b) s.env.push_back(*b); } return s; }
+static std::string enva_str(const EnvSnap& s) { std::string t = "dim " + std::to_string(s.dim) + " defect " + std::to_string(s.defect) + " widths [" + join(s.len) + "] diag ["; for (double d : s.diag) t += str(d) + " "; t += "] env ["; for (double d : s.env) t += str(d) + " "; return t + "]"; }
+static void enva_make(Env& e, const std::vector<int>& w, int state, double base) {
+  int n = (int)w.size(); std::vector<double> dg, ev;
+  for (int a = 1; a <= n; a++) {
+    dg.push_back(state == 0 ? base + 11 * a : (state == 2 && a == 1 ? 0.0 : base / 100 + 20 + a));
+    for (int b = a - w[a - 1]; b < a; b++) ev.push_back(state == 0 ? base + 10 * a + b : (((a + b) & 1) ? -1.0 : 1.0) / (1 + a - b) + base / 1000);
+  }
+  e.set(dg.data(), dg.data() + dg.size(), ev.data(), ev.data() + ev.size(), w.data(), w.data() + w.size());
+  if (state) e.cholDec();
+}
+static std::string enva_fmt(long long idx) { const auto& P = enva_profiles(); long long np = (long long)P.size(); return "target widths [" + join(P[idx / np]) + "] <- source widths [" + join(P[idx % np]) + "]"; }
+static void enva_case(long long idx) {
+  const auto& P = enva_profiles(); const long long np = (long long)P.size();
+  const std::vector<int>& wt = P[idx / np]; const std::vector<int>& ws = P[idx % np];
+  C("states"); C("evaluations");
+  int st = 0, ss = 0; for (int x : wt) st += x; for (int x : ws) ss += x;
+  const std::string rel = wt == ws ? (wt.empty() ? "empty<-empty" : "equal-profile") : (wt.empty() ? "to-empty" : (ws.empty() ? "from-empty" : (wt.size() != ws.size() ? "different-dim" : (st == ss ? "same-size-different-profile" : "different-size"))));
+  g_cls = rel;
+  for (int ts = 0; ts < 3; ts++) for (int sst = 0; sst < 3; sst++) {
+    Env t; enva_make(t, wt, ts, 500);
+    std::unique_ptr<Env> s(new Env); enva_make(*s, ws, sst, 0);
+    const EnvSnap want = enva_snap(*s);
+    C("transitions"); O("Envelope::operator=:" + rel + (want.defect ? ":defect>0" : ":defect=0"));
+    Env& r = (t = *s);
+    if (&r != &t) bad("envelope", "Envelope::operator=", "", "does not return *this");
+    EnvSnap got = enva_snap(t);
+    if (!(got == want)) { bad("envelope", "Envelope::operator=", "", "target after assignment: " + enva_str(got) + "; source: " + enva_str(want)); continue; }
+    if (!(enva_snap(*s) == want)) bad("envelope", "Envelope::operator=", rel + "|source-changed", "the source was changed by the assignment");
+    bool shared = false; for (int a = 1; a <= want.dim; a++) { if (&t.diagonal(a) == &s->diagonal(a)) shared = true; if (want.len[a - 1] && t.begin(a) == s->begin(a)) shared = true; }
+    if (shared) bad("envelope", "Envelope::operator=", rel + "|shares-storage", "target and source share storage");
+    // the target is independent of the source: overwrite the source, then destroy it
+    for (int a = 1; a <= want.dim; a++) { s->diagonal(a) = -777; for (double* b = s->begin(a); b != s->end(a); ++b) *b = -777; }
+    if (!(enva_snap(t) == want)) bad("envelope", "Envelope::operator=", rel + "|follows-source", "writing to the source after the assignment changed the target");
+    s.reset();
+    if (!(enva_snap(t) == want)) bad("envelope", "Envelope::operator=", rel + "|follows-source", "destroying the source changed the target");
+    // element(): null exactly outside the profile
+    { const Env& tc = t; bool oke = true; for (int a = 1; a <= want.dim && oke; a++) for (int b = 1; b <= a; b++) { const double* e = tc.element(a, b); bool inside = b >= a - want.len[a - 1]; if ((e != nullptr) != inside) { oke = false; break; } }
+      if (!oke) bad("envelope", "Envelope::operator=", rel + "|element", "element() of the assigned object does not follow the source profile"); }
+    if (wt == ws) {   // self assignment keeps everything
+      Env u; enva_make(u, wt, ts, 500); const EnvSnap before = enva_snap(u); Env& self = u;
+      C("transitions"); O("Envelope::operator=:self");
+      u = self;
+      if (!(enva_snap(u) == before)) bad("envelope", "Envelope::operator=", "self-assignment", "object changed by u = u: " + enva_str(enva_snap(u)) + " before " + enva_str(before));
+    }
+  }
+}
+
 // ------------------------------------------------------------------ homogenization
 static std::vector<Layout>& hom_layouts(int m) { static std::map<int, std::vector<Layout>> L; if (!L.count(m)) { std::vector<Layout> all; gen_layouts(m, false, all); for (auto& l : all) { int n = 0; for (int d : l.dim) n += d; if (n == m) L[m].push_back(l); } } return L[m]; }
 static const int HOMC = 2;
@@ -478,6 +543,11 @@ int main(int argc, char** argv) {
   }
   { Unit u; u.name = "sp.dim0"; u.total = 36; u.maxcrash = 64; u.fmt = dim0_fmt; u.f = dim0_case; run_unit(u, 2); }
   { Unit u; u.name = "sp.svector"; u.total = 45; u.fmt = [](long long n) { return std::to_string(n) + " insertions"; }; u.f = svector_case; run_unit(u); }
+  for (int nm = 5; nm <= 6; nm++) {
+    if (nm == 6 && !th && g().want_unit.empty()) continue;     // the larger family runs in the thorough tier only (replayable in both)
+    ENVA_NMAX = nm; long long np = (long long)enva_profiles().size(); Unit u; u.name = nm == 6 ? "env.assign6" : "env.assign"; u.total = np * np;
+    u.fmt = [=](long long i) { ENVA_NMAX = nm; return enva_fmt(i); }; u.f = [=](long long i) { ENVA_NMAX = nm; enva_case(i); }; run_unit(u, nm == 6 ? 256 : 64);
+  }
   { Unit u; u.name = "bd"; u.total = (long long)bd_layouts().size(); u.fmt = [](long long i) { return laystr(bd_layouts()[i]); }; u.f = bd_case; run_unit(u, 32); }
   for (int m = 1; m <= (th ? 5 : 4); m++) {
     Unit u; u.name = "hom." + std::to_string(m); u.total = (long long)hom_layouts(m).size() << (m * HOMC);
